@@ -17,6 +17,12 @@ HISTORY = {  # changes that an earlier version of the checks missed, and what wa
     "agent-C19": "missed at first by C19 (caught by C10): derived circuits were compiled before the load; the L event now compiles them lazily after load_state_dict",
     "revert-13-4866aad": "C02 missed it at first (C07 caught it): added complex-parameter pipelines with conjugation to C02",
     "agent-C03": "C02 missed it at first (C03 caught it): added mixed input kinds per variable to C02",
+    "agent2-C02": "C02 missed it at first (C14 caught it): added integrate of the product of two DIFFERENT circuits (a square is symmetric and hides the transposition)",
+    "agent2-C03": "C03 and C02 missed it at first (C14 caught it): same strengthening as agent2-C02 (mode pair-int in C03)",
+    "agent2-C06": "C06 missed it at first (C17 caught it): observations of continuous variables now mix Python ints and floats",
+    "agent2-C10": "missed at first: intermediate states of a history were not evaluated and nothing ran under torch.no_grad(); every state is now evaluated with and without autograd",
+    "agent2-C12": "missed at first (all runs are float64, where the global-max softmax only underflows beyond ~745): added the 'rowshift' valuation (rows 400 apart, exact for a per-row softmax) to C12 and C14",
+    "agent2-C15": "missed at first in quick: the asymmetric shared-leaf DAGs were only in the thorough tier; two of them (K = 1) moved into quick",
 }
 
 
